@@ -826,6 +826,50 @@ where
     fn vk_variants(vk: &Vk<Self>, seed: u64) -> Vec<(String, Vk<Self>)> {
         crate::surgery::pst13_vk_variants::<E>(vk, seed)
     }
+    /// "extra variable": the query point gets one more coordinate e and the proof one more witness
+    /// commitment (t/e)*G. A verifier that folds every w_j * z_j into the commitment side but pairs
+    /// only the first num_vars witnesses shifts the claimed value by t/xi for free.
+    #[cfg(feature = "full")]
+    fn forged_claims(
+        scn: &crate::scenario::Scenario,
+        sess: &crate::session::Sess<Self>,
+        op: &crate::scenario::Op,
+        honest: &crate::session::Claim<Self>,
+        pos: usize,
+        pre_verifier: &crate::seams::TraceSponge<Self::F>,
+        f: &crate::scenario::Fault,
+    ) -> Vec<(String, crate::session::Claim<Self>)> {
+        use crate::scenario::Op;
+        use crate::session::Claim;
+        use ark_crypto_primitives::sponge::{CryptographicSponge, FieldElementSize};
+        use ark_ec::CurveGroup;
+        use ark_ff::{Field, UniformRand, Zero};
+        use std::ops::Mul;
+        let mut out = vec![];
+        let (Op::Open { polys, point }, Claim::Open { labels, point: z, values, proof }) = (op, honest) else { return out };
+        if polys.len() != 1 || pos != 0 || scn.polys[polys[0]].degree_bound.is_some() {
+            return out;
+        }
+        let xi: Self::F = pre_verifier.fork().squeeze_field_elements_with_sizes::<Self::F>(&[FieldElementSize::Truncated(128)])[0];
+        let t: Self::F = loop {
+            let x = Self::F::rand(&mut crate::seams::stream(scn.seed, "pst13-forge", f.param));
+            if !x.is_zero() { break x; }
+        };
+        let Some(xi_inv) = xi.inverse() else { return out };
+        let e = Self::F::from(7u64);
+        let mut z2 = z.clone();
+        z2.push(e);
+        let mut p2 = proof.clone();
+        p2.w.push(sess.verifier.vk.g.mul(t * e.inverse().unwrap()).into_affine());
+        let claimed = values[0] + t * xi_inv;
+        out.push(("extra-variable/check".to_string(), Claim::Open { labels: labels.clone(), point: z2.clone(), values: vec![claimed], proof: p2.clone() }));
+        let mut qs = ark_poly_commit::QuerySet::<Self::Pt>::new();
+        qs.insert((labels[0].clone(), (scn.points[*point].label.clone(), z2.clone())));
+        let mut evals = ark_poly_commit::Evaluations::<Self::Pt, Self::F>::new();
+        evals.insert((labels[0].clone(), z2), claimed);
+        out.push(("extra-variable/batch_check".to_string(), Claim::Batch { qs, evals, proof: vec![p2].into() }));
+        out
+    }
     #[cfg(feature = "full")]
     fn reference_check(vk: &Vk<Self>, comms: &[&ark_poly_commit::LabeledCommitment<Comm<Self>>], z: &Self::Pt, values: &[Self::F], proof: &Proof<Self>, sp: &mut crate::seams::TraceSponge<Self::F>) -> Option<bool> {
         Some(crate::refcheck::pst13_ref::<E>(vk, comms, z, values, proof, sp))
